@@ -5,6 +5,7 @@
      2 Option<u32>          None = 0, Some n = n + 1
      3 bool                 0 / 1
      4 (u32, u32)           a * 64 + b  (lexicographic order = order of the codes, components < 64)
+     5 Product<(u32, Dual<u32>)>  a * 64 + b  (component-wise: a upwards, b downwards)
      6 Set<u32>             bit mask (elements < 16)
      7 BoundedSet<2, u32>   TOP = -1, else a bit mask with at most 2 bits
      8 ConstPropagation     Bottom = -1, Top = -2, Constant n = n
@@ -23,6 +24,7 @@ Definition popc (m : Z) : Z := popc_aux 16 m.
 Definition lat_join (ty : nat) (a b : Z) : Z :=
   match ty with
   | 1%nat => Z.min a b
+  | 5%nat => Z.max (a / 64) (b / 64) * 64 + Z.min (a mod 64) (b mod 64)
   | 6%nat => Z.lor a b
   | 7%nat => if (a =? -1) || (b =? -1) then -1 else let u := Z.lor a b in if popc u <=? 2 then u else -1
   | 8%nat => if a =? -1 then b else if b =? -1 then a else if (a =? -2) || (b =? -2) then -2 else if a =? b then a else -2
@@ -67,6 +69,8 @@ Definition lv_fun (f : nat) (l : list Z) : Z :=
   | 263%nat => arg 0 l
   | 270%nat => arg 0 l * 64 + arg 1 l
   | 271%nat => arg 0 l
+  | 280%nat => arg 0 l * 64 + arg 1 l
+  | 281%nat => arg 0 l
   | _ => std_fint f l
   end.
 
